@@ -3,3 +3,6 @@ import SeataModel.Codec.Layout
 import SeataModel.Codec.V1Table
 import SeataModel.Lemmas.Codec
 import SeataModel.Props.C12
+import SeataModel.Codec.Frame
+import SeataModel.Lemmas.Frame
+import SeataModel.Props.C13
